@@ -114,6 +114,18 @@ def c12_classify(inp, out):
     return ks
 
 
+def kms_classify(inp, out):
+    ks = ["lock:" + inp.split("|")[0]]
+    for op in inp.split("|")[1].split(";"):
+        f = op.split(" ")
+        ks.append("op:" + f[0] + (":" + f[1] if f[0] in ("create", "createexp", "import") else ""))
+    if "crash=" in inp:
+        ks.append("crash:" + inp.split("crash=")[1])
+    for o in out.split(" || ")[0].split(" "):
+        ks.append("out:" + o)
+    return ks
+
+
 PROPS = {
     "C11": {
         "lean_files": ["AriesVerif/C11/Spec.lean", "AriesVerif/C11/Model.lean", "AriesVerif/C11/Props.lean",
@@ -258,5 +270,37 @@ PROPS = {
                          "store names (OpenStore / SetStoreConfig first argument) are outside the property as stated"],
         "assumptions": ["the WithEDVBatchCrypto configuration (outside the stated quantifier) is not driven; its batchFormat returns "
                         "plaintext tags (DESIGN.md section 8)"],
+    },
+    "C05": {
+        "lean_files": ["AriesVerif/C05/Model.lean", "AriesVerif/C05/Props.lean", "AriesVerif/C05/Drv.lean", "AriesVerif/C12/Model.lean"],
+        "lake_targets": ["AriesVerif"],
+        "classify": kms_classify,
+        "nontrivial": lambda inp, out: "secrets=0" not in out and "puts=0" not in out,
+        "thorough_seeds": 2,
+        "case_timeout": 120,
+        "rule": "histories of Create / CreateAndExportPubKeyBytes / ImportPrivateKey (named, un-named, duplicate id) / Rotate / Get / "
+                "ExportPubKeyBytes over 12 key types with the local secret lock in three configurations (raw master key, HKDF- and "
+                "PBKDF2-protected master key) over a recording kms.Store; the private / symmetric key bytes of every key are obtained "
+                "through Tink's cleartext export (harness side) and every value ever written plus everything the API returned plus the "
+                "protected master key is scanned for them (and for the master key) in raw / hex / base58 / base64 / base64url; a second "
+                "key manager with a wrong master key or passphrase must fail on every id; non-trivial = keys were stored and scanned",
+        "trusted_base": ["Tink keyset encryption, AES-GCM secret lock, HKDF / PBKDF2 (ideal)", "protobuf field numbers of the Tink key "
+                         "protos used to pick the secret bytes"],
+        "assumptions": ["noop lock is out of scope (the property is conditional on a configured secret lock)"],
+    },
+    "C06": {
+        "lean_files": ["AriesVerif/C05/Model.lean", "AriesVerif/C05/Props.lean", "AriesVerif/C05/Drv.lean"],
+        "lake_targets": ["AriesVerif"],
+        "classify": kms_classify,
+        "nontrivial": lambda inp, out: "reopen: " in out and "ok/" in out,
+        "thorough_seeds": 2,
+        "case_timeout": 120,
+        "rule": "the C05 histories, two thirds of them ending in a mutating call during which the store freezes after its k-th "
+                "mutating storage call (k = 0, 1, 2: every crash point of Create / Import / Rotate); then a FRESH key manager is opened "
+                "over the surviving store with the same master key and every key returned earlier is probed (Get, exported public key "
+                "equal); created / imported asymmetric keys: returned id compared with jwkkid.CreateKID of the exported public key; "
+                "non-trivial = at least one key was retrieved after the reopen",
+        "trusted_base": ["Tink keyset encryption (ideal)", "jwkkid.CreateKID as the reference thumbprint (its own correctness is C16)"],
+        "assumptions": ["signing with one instance / verifying with the other is covered by the exported-public-key equality only"],
     },
 }
